@@ -714,6 +714,37 @@ def gauss_integral(f, a, b, n=8):
     return tot
 
 
+def bits_float(s):
+    """the driver prints a Float as its IEEE-754 bits (decimal UInt64)"""
+    import struct
+    s = s.strip()
+    if not s.isdigit():
+        return None
+    return struct.unpack("<d", struct.pack("<Q", int(s)))[0]
+
+
+def trans_lines(name, p, a, b):
+    """driver lines of the transcendental closed forms (Model/AnalyticTrans): (anaT line, point -> evlT line)"""
+    vs = lambda v: ",".join(frac_str(x) for x in v) if len(v) else "-"   # noqa: E731
+    if name == "GenzProductPeak":
+        return ("anaT pp %s %s %s %s" % (vs(p["c"]), vs(p["m"]), vs(a), vs(b)),
+                lambda x: "evlT pp %s %s %s" % (vs(p["c"]), vs(p["m"]), vs(x)))
+    if name == "GenzC0":
+        return ("anaT c0 %s %s %s %s" % (vs(p["c"]), vs(p["m"]), vs(a), vs(b)),
+                lambda x: "evlT c0 %s %s %s" % (vs(p["c"]), vs(p["m"]), vs(x)))
+    if name in ("GenzDiscontinious", "GenzDiscontinious2"):
+        return ("anaT disc %s %s %s %s" % (vs(p["c"]), vs(p["b"]), vs(a), vs(b)),
+                lambda x: "evlT disc %s %s %s" % (vs(p["c"]), vs(p["b"]), vs(x)))
+    if name == "FunctionExpVar":
+        return ("anaT expvar %s %s" % (vs(a), vs(b)), lambda x: "evlT expvar %s" % vs(x))
+    if name == "GenzOszillatory":
+        return ("anaT osz %s %s %s %s" % (vs(p["c"]), frac_str(p["o"]), vs(a), vs(b)),
+                lambda x: "evlT osz %s %s %s" % (vs(p["c"]), frac_str(p["o"]), vs(x)))
+    if name == "GenzCornerPeak":
+        return ("anaT corner %s %s %s" % (vs(p["c"]), vs(a), vs(b)), lambda x: "evlT corner %s %s" % (vs(p["c"]), vs(x)))
+    return None
+
+
 def run_integral(ctx, drv, case):
     name, params, a, b = case["cls"], case["params"], case["a"], case["b"]
     cname = "CustomFunction" if name == "BaseClassQuadrature" else name
@@ -785,6 +816,25 @@ def run_integral(ctx, drv, case):
             if not rel_close(iv, ev, 1e-12, 1e-9):
                 ok = False
                 ctx.corr_break("C12/eval-" + m, case, {"impl": iv, "model": str(ev), "point": pt})
+    # (1b) the transcendental closed forms: the Float instance of the Model/AnalyticTrans terms (driver ops anaT /
+    #      evlT; their real instance is what the Part C theorems are about) vs the Python values
+    tl = trans_lines(name, params, a, b)
+    if tl is not None:
+        ana_line, evl = tl
+        mv = bits_float(drv.ask(ana_line))
+        scale = 1e-3 * max(abs(float(np.ravel(f.eval(list(a)))[0])), abs(float(np.ravel(f.eval(list(b)))[0]))) * \
+            float(np.prod([abs(y - x) for x, y in zip(a, b)]))
+        if mv is None or not rel_close(ana, mv, 1e-12, scale):
+            ok = False
+            ctx.corr_break("C12/anaT-" + name, case, {"impl": ana, "model_float": mv, "line": ana_line})
+        mid = [(x + y) / 2 for x, y in zip(a, b)]
+        for pt in (list(a), list(b), mid):
+            iv = float(np.ravel(f.eval(pt))[0])
+            ev = bits_float(drv.ask(evl(pt)))
+            if ev is None or not rel_close(iv, ev, 1e-12, 1e-3 if name == "GenzOszillatory" else 1e-300):
+                ok = False
+                ctx.corr_break("C12/evlT-" + name, case, {"impl": iv, "model_float": ev, "point": pt})
+        ctx.count("anaT_" + name)
     # (2) oracle: the property itself -- analytic == numerically computed integral of the point evaluation
     for comp in range(n_comp):
         if m in ("const", "linear", "poly", "multilin", "poly1d"):
@@ -828,7 +878,9 @@ def run(ctx):
                 "(c) analytic vs numeric integral (nquad 1e-11, Gauss-Legendre for polynomials) on random boxes: unit cube, unit sides, "
                 "arbitrary, origin outside" % len(CLASSES))
     ctx.assumptions.append("floating-point rounding is not modelled: values are compared at 1e-12 relative, integrals at 1e-7")
-    ctx.assumptions.append("transcendental analytic integrals (Genz family, FunctionExpVar, FunctionG, FunctionDiagonalDiscont) and the "
+    ctx.assumptions.append("the closed forms of GenzProductPeak, GenzC0, GenzDiscontinious(2), FunctionExpVar, GenzOszillatory, GenzCornerPeak "
+                           "are proved over the reals (Part C); the Float instance of the same terms is tied to Python at 1e-12")
+    ctx.assumptions.append("remaining analytic integrals (GenzGaussian [erf], FunctionG, FunctionDiagonalDiscont, wrappers) and the "
                            "agreement of their vectorised overrides with eval are validated by the oracle only, not proved")
     drv = ctx.driver("drv_c12")
     run_malformed(ctx, drv)
